@@ -17,6 +17,7 @@ type ReplayFn = fn(&serde_json::Value) -> Option<Violation>;
 
 fn table(id: &str) -> Option<(RunFn, ReplayFn)> {
     Some(match id {
+        "C06" => (props::c06::run, props::c06::replay),
         "C15" => (props::c15::run, props::c15::replay),
         _ => return None,
     })
@@ -33,6 +34,7 @@ fn main() {
         _ => Tier::Quick,
     };
     let mut replay: Option<String> = None;
+    let mut inner = false;
     let mut i = 1;
     while i < args.len() {
         match args[i].as_str() {
@@ -44,6 +46,7 @@ fn main() {
                     _ => usage(),
                 };
             }
+            "--inner" => inner = true,
             "--replay" => {
                 i += 1;
                 replay = Some(args.get(i).cloned().unwrap_or_else(|| usage()));
@@ -62,7 +65,7 @@ fn main() {
         }
     };
     engine::install_panic_hook();
-    let mut ctx = Ctx { tier, seed, shards, strict: false };
+    let mut ctx = Ctx { tier, seed, shards, strict: false, inner };
 
     if let Some(path) = replay {
         ctx.strict = true;
@@ -92,6 +95,12 @@ fn main() {
                 std::process::exit(0);
             }
         }
+    }
+
+    if inner {
+        let rep = run(&ctx);
+        println!("INNER {}", inner_json(&rep));
+        std::process::exit(0);
     }
 
     // replay the committed reproducer of every open known finding of this property
